@@ -250,7 +250,7 @@ type c07Input struct {
 }
 
 func c07MakeInput(seed uint64, target string, size string) c07Input {
-	r := gen.New(seed, "c07input"+target+size)
+	r := gen.New(seed, "c07input"+target+strings.TrimSuffix(size, "-nohdr"))
 	if target == "xml" {
 		n, filler := 25, 0
 		switch size {
@@ -263,10 +263,13 @@ func c07MakeInput(seed uint64, target string, size string) c07Input {
 		return c07Input{data: data, keys: keys, fillFrom: ff, fillTo: ft}
 	}
 	o := pbfw.GenOpts{MinBlocks: 6, MaxBlocks: 6, MaxGroups: 1, MaxElems: 5, SmallStrings: true}
-	if size == "big" {
+	if strings.HasPrefix(size, "big") {
 		o = pbfw.GenOpts{MinBlocks: 300, MaxBlocks: 300, MaxGroups: 1, MaxElems: 3, SmallStrings: true}
 	}
 	f := pbfw.GenFile(r, o)
+	if strings.HasSuffix(size, "-nohdr") {
+		f.Header = nil // a resumed stream: the first block is a data block
+	}
 	data, lay := f.Encode(nil)
 	var keys []c08Key
 	for _, e := range f.ExpectAll() {
@@ -675,6 +678,14 @@ func c07Exec(c fw.Case) *fw.Result {
 	return res
 }
 
+// c07SmallSize: a third of the small PBF inputs are header-less (resumed) streams.
+func c07SmallSize(target string, i int) string {
+	if target == "pbf" && i%3 == 1 {
+		return "small-nohdr"
+	}
+	return "small"
+}
+
 var c07Posts = []string{"SE", "ESE", "SECSE", "CCSE", "E", "SSECE"}
 
 func c07Cases(tier string, seed uint64) []fw.Case {
@@ -698,7 +709,7 @@ func c07Cases(tier string, seed uint64) []fw.Case {
 						}
 						cs = append(cs, fw.Case{Kind: "allk", Variant: "race", Seed: gen.Sub(seed, "c07small", fi),
 							P: map[string]int64{"procs": procs, "allk": 1, "header": hi, "slowreader": int64(b2i(target == "pbf" && ((si+pi)%2 == 1 || stop == "cancel-close")))},
-							S: map[string]string{"target": target, "size": "small", "stop": stop, "post": c07Posts[(si+pi+int(hi)+fi)%len(c07Posts)]}})
+							S: map[string]string{"target": target, "size": c07SmallSize(target, si+pi+int(hi)), "stop": stop, "post": c07Posts[(si+pi+int(hi)+fi)%len(c07Posts)]}})
 					}
 				}
 			}
@@ -769,7 +780,7 @@ func init() {
 	fw.Register(&fw.Prop{
 		ID:    "C07",
 		Level: "fault_enumeration",
-		Rule: "call histories Header? Scan×k stop post-ops for EVERY k=0..N+1 of small PBF and XML inputs × stop kind {Close, cancel from the scanning goroutine, cancel from a second goroutine overlapping further Scans, cancel immediately followed by Close with a slow reader} × decoders {1,2,4,16} (race build), checked for linearizability against a sequential scanner model with porcupine; " +
+		Rule: "call histories Header? Scan×k stop post-ops for EVERY k=0..N+1 of small PBF (with and without header block) and XML inputs × stop kind {Close, cancel from the scanning goroutine, cancel from a second goroutine overlapping further Scans, cancel immediately followed by Close with a slow reader} × decoders {1,2,4,16} (race build), checked for linearizability against a sequential scanner model with porcupine; " +
 			"300-block inputs with a counting reader for the bytes consumed after the stop; cancellation from the reader goroutine's Read callback or a timer with a slow consumer under the race detector; histories with an injected I/O error; endless input with a logical byte budget. " +
 			"Signature = (target, stop kind, decoders, stop-position class, post-ops, fault injected).",
 		Assumptions: []string{
@@ -782,7 +793,7 @@ func init() {
 		RaceIsViolation:  true,
 		HangIsViolation:  true,
 		CrashIsViolation: true,
-		HangSeconds:      120,
+		HangSeconds:      45,
 		Workers:          8,
 		CaseClass:        func(c fw.Case) string { return c.Kind + "/" + c.Str("target") + "/" + c.Str("stop") },
 	})
